@@ -134,6 +134,28 @@ def _atom_case(E):
     E.fact('empty_string.atoms', formulas.formula('').atoms == {})
 
 
+def _string_case(desc):
+    """string constructor: parse a rendered derivation tree (symbolic count literals) and check the composition it denotes"""
+    def h(E):
+        from periodictable import formulas
+        import periodictable as pt
+        from .. import symparse as sp
+        from .c01 import build_tree
+        sp.reset()
+        tree = build_tree(E, desc, [0])
+        text = tree.render()
+        E.note(text)
+        with sp.parsing(E):
+            f = formulas.formula(text)
+        want = tree.denote(pt.elements)
+        check_formula(E, 'string', f, want)
+        # the same text built twice gives equal, independent formulas
+        with sp.parsing(E):
+            g = formulas.formula(text)
+        E.fact('string.reparse_independent', g is not f and g.structure == f.structure)
+    return h
+
+
 EXPRS = ['n*f', 'f+g', 'n*(f+g)', 'n*f+g', 'n*(k*f)', 'f+=g', '(f+=g)+n*h', 'n*f+k*g+h', 'f+f', 'n*(f+=g)', 'n*(k*(f+g))+h', '(f+g)+(g+h)']
 
 
@@ -209,6 +231,11 @@ def cases(tier):
         for how in ('sequence', 'mapping', 'copy', 'Formula'):
             out.append(Case('construct[%s|%s]' % (sn, how), _construct(sn, how), max_paths=mp, timeout_ms=30000))
     out.append(Case('atoms_and_empty', _atom_case, max_paths=8))
+    from .c01 import skeletons
+    sk = skeletons('quick')
+    pick = sk if th else [sk[i] for i in (11, 23, 42, 46, 50, 55, 59, 66, 67, 68, 72, 73, 76, 77, 80)]
+    for name, d in pick:
+        out.append(Case('string[%s]' % name, _string_case(d), max_paths=64 if not th else 256, timeout_ms=20000, nsamples=1))
     combos = [('pair', 'group', 'leaf'), ('repeat_depth', 'pair', 'group')]
     if th:
         combos += [('leaf', 'leaf', 'leaf'), ('deep', 'three', 'pair'), ('wide_groups', 'repeat_depth', 'deep')]
